@@ -33,28 +33,64 @@ class C14(Check):
         return c["in"]
 
     def sample(self, c):
-        return dict(txs=c["in"]["txs"], sort_runs=c["obs"]["sort_runs"], distinct_orders=len(c["obs"]["sort"]),
-                    first_orders=c["obs"]["sort"][:2], store_orders=c["obs"]["store"][:1], tags=c["tags"])
+        d = dict(txs=c["in"]["txs"], sort_runs=c["obs"]["sort_runs"], distinct_orders=len(c["obs"]["sort"]),
+                 first_orders=c["obs"]["sort"][:2], store_orders=c["obs"]["store"][:1], tags=c["tags"])
+        if c["in"].get("mined") or c["in"].get("ops"):
+            d.update(mined=c["in"].get("mined", []), ops=c["in"].get("ops", []), ledger=c["obs"].get("ledger"))
+        return d
 
     @staticmethod
-    def orders_of(c):
+    def _dedup(orders):
         seen, out = set(), []
-        for o in c["obs"]["sort"] + c["obs"]["store"]:
+        for o in orders:
             k = tuple(o)
             if k not in seen:
                 seen.add(k)
                 out.append(o)
         return out
 
-    def render_cases(self, cases):
+    @staticmethod
+    def ledger_of(c):
+        """ids the store orders are judged against: the harness's ledger (older replays without it: all members)"""
+        led = c["obs"].get("ledger")
+        if led is None:
+            return [t["id"] for t in c["in"]["txs"]]
+        return led
+
+    @classmethod
+    def rows_of(cls, c):
+        """(txs, orders) rows of one harness case: DependencySort orders over the full member set; Store.UnminedTxs orders
+        over the ledger-restricted graph (in the same row when the ledger is the full set)"""
+        txs = c["in"]["txs"]
+        sort_orders, store_orders = c["obs"]["sort"], c["obs"]["store"]
+        led = set(cls.ledger_of(c))
+        if not c["obs"].get("store_runs") or led == {t["id"] for t in txs}:
+            return [(txs, cls._dedup(sort_orders + store_orders))]
+        return [(txs, cls._dedup(sort_orders)), ([t for t in txs if t["id"] in led], cls._dedup(store_orders))]
+
+    @classmethod
+    def orders_of(cls, c):
+        return [o for _, os_ in cls.rows_of(c) for o in os_]
+
+    def _render(self, cases):
+        """text of the cases file and, per Coq row, the index of the harness case it belongs to"""
         def num(i):
             return str(i if i >= 0 else FOREIGN)
-        rows = []
-        for c in cases:
-            txs = clist(["(%s, %s)" % (num(t["id"]), clist(["(%s, %s)" % (num(i[0]), num(i[1])) for i in t["ins"]]))
-                         for t in c["in"]["txs"]])
-            obs = clist([clist([num(i) for i in o]) for o in self.orders_of(c)])
-            rows.append("(%s,\n  %s)" % (txs, obs))
+        rows, owner = [], []
+        for ci, c in enumerate(cases):
+            for members, orders in self.rows_of(c):
+                txs = clist(["(%s, %s)" % (num(t["id"]), clist(["(%s, %s)" % (num(i[0]), num(i[1])) for i in t["ins"]]))
+                             for t in members])
+                obs = clist([clist([num(i) for i in o]) for o in orders])
+                rows.append("(%s,\n  %s)" % (txs, obs))
+                owner.append(ci)
+        return self._text(rows), owner
+
+    def render_cases(self, cases):
+        return self._render(cases)[0]
+
+    @staticmethod
+    def _text(rows):
         return """From Verif Require Import Base.Prelude Tx.Kahn Tx.KahnCorr.
 Local Open Scope N_scope.
 Definition cases : list case :=
@@ -72,11 +108,11 @@ Print drift.
         starts = list(range(0, len(cases), self.SHARD))
 
         def one(start):
-            text = self.render_cases(cases[start:start + self.SHARD])
-            return start, coq_eval(self.ID, text, "cases_%d" % start)
+            text, owner = self._render(cases[start:start + self.SHARD])
+            return start, owner, coq_eval(self.ID, text, "cases_%d" % start)
         with ThreadPoolExecutor(max_workers=8) as ex:
             results = list(ex.map(one, starts))
-        for start, (rc, out, err) in results:
+        for start, owner, (rc, out, err) in results:
             logs += out[-1000:] + err[-1000:]
             if rc != 0:
                 problems.append("correspondence: cases file does not evaluate: " + err[-1500:])
@@ -86,18 +122,31 @@ Print drift.
             if bad is None or drift is None:
                 problems.append("correspondence: could not parse model output: " + out[-500:])
                 continue
-            mism.extend(start + b for b in bad)
-            self.drift.extend(start + d for d in drift)
+            # rows -> harness cases (a case has a second row when its store orders are over a smaller ledger)
+            mism.extend(sorted({start + owner[b] for b in bad}))
+            self.drift.extend(sorted({start + owner[d] for d in drift}))
         if self.drift:
             log("C14 note: %d cases with an order the FIFO model does not reproduce exactly (still admissible unless listed as "
                 "mismatch): the implementation's work-list discipline differs from the model; harmless for C14" % len(self.drift))
-        return sorted(mism), logs, problems
+        return sorted(set(mism)), logs, problems
 
     def extra_coverage(self, cases):
         orders = sum(len(self.orders_of(c)) for c in cases)
         runs = sum(c["obs"]["sort_runs"] + c["obs"]["store_runs"] for c in cases)
+        stored = [c for c in cases if c["obs"]["store_runs"]]
+
+        def tagged(t):
+            return sum(1 for c in cases if t in c.get("tags", []))
         return dict(implementation_calls=runs, distinct_orders_checked_in_coq=orders,
-                    cases_through_real_store=sum(1 for c in cases if c["obs"]["store_runs"] and c["obs"]["store_kept_all"]),
+                    cases_through_real_store=len(stored),
+                    store_runs_judged_against_ledger=sum(c["obs"]["store_runs"] for c in stored),
+                    coq_rows=sum(len(self.rows_of(c)) for c in cases),
+                    cases_with_history=sum(1 for c in cases if c["in"].get("ops")),
+                    cases_with_ledger_smaller_than_inserted=tagged("ledger_smaller_than_inserted"),
+                    cases_with_mined_parent=sum(1 for c in cases if c["in"].get("mined")),
+                    cases_with_mined_coinbase_parent=tagged("mined_coinbase_parent"),
+                    cases_first_input_spends_mined_coinbase=tagged("first_input_spends_mined_coinbase"),
+                    cases_unmined_hash_list_differs_from_ledger=tagged("hash_list_differs_from_ledger"),
                     exact_fifo_model_drift_cases=len(getattr(self, "drift", [])),
                     max_set_size=max([len(c["in"]["txs"]) for c in cases] + [0]))
 
@@ -109,6 +158,20 @@ Print drift.
         rc, cs, err = run_vh([self.vh_cmd(), "-replay", p], timeout=120)
         return rc == 0 and len(cs) == 1 and kind in cs[0].get("oracle", []), (cs[0] if cs else None)
 
+    @staticmethod
+    def _valid(inp):
+        """keeps a shrunk input well-formed: steps naming a dropped member go, mined parents nobody spends go (the harness
+        itself skips a step whose precondition no longer holds, e.g. a confirm whose parent is unconfirmed again)"""
+        inp = dict(inp)
+        ids = {t["id"] for t in inp["txs"]}
+        spent = {i[0] for t in inp["txs"] for i in t["ins"]}
+        for key, keep in (("ops", lambda o: o["id"] in ids), ("mined", lambda m: m["id"] in spent and m["id"] not in ids)):
+            if key in inp:
+                inp[key] = [x for x in inp[key] if keep(x)]
+                if not inp[key]:
+                    del inp[key]
+        return inp
+
     def shrink(self, case, kind):
         best = case
         try:
@@ -117,16 +180,23 @@ Print drift.
             while changed:
                 changed = False
                 for i in range(len(inp["txs"]) - 1, -1, -1):
-                    cand = dict(inp, txs=inp["txs"][:i] + inp["txs"][i + 1:])
+                    cand = self._valid(dict(inp, txs=inp["txs"][:i] + inp["txs"][i + 1:]))
                     ok, c2 = self._still_fails(cand, kind)
                     if ok:
                         inp, best, changed = cand, c2, True
+                for key in ("ops", "mined"):       # then steps of the history / mined parents
+                    for i in range(len(inp.get(key, [])) - 1, -1, -1):
+                        cand = self._valid(dict(inp, **{key: inp[key][:i] + inp[key][i + 1:]}))
+                        ok, c2 = self._still_fails(cand, kind)
+                        if ok:
+                            inp, best, changed = cand, c2, True
                 for ti in range(len(inp["txs"])):
                     for ii in range(len(inp["txs"][ti]["ins"]) - 1, -1, -1):
                         if len(inp["txs"][ti]["ins"]) <= 1:
                             break
                         cand = json.loads(json.dumps(inp))
                         del cand["txs"][ti]["ins"][ii]
+                        cand = self._valid(cand)
                         ok, c2 = self._still_fails(cand, kind)
                         if ok:
                             inp, best, changed = cand, c2, True
